@@ -150,6 +150,10 @@ def _finite_cases(formulas, max_vals=8):
     return None
 
 
+import re as _re
+_SHAPE_ID = _re.compile(r"(^one-|-one-|one_|-once|^calls-|^body-|epoch-loop|forward-loop|same-structure|^reset-once|exactly-one|one-scan|one-while|one-sum|one-train|one-update|one-choice|one-draw|one-ordered)")
+
+
 class ObResult(dict):
     pass
 
@@ -468,10 +472,19 @@ class Session:
         return self._record(oid, "undecided", function=function, what=what, reason=st, kind="cover",
                             seconds=round(time.time() - t0, 3))
 
-    def fact(self, oid, ok, function=None, what=None, detail=None, replay=None, kind="structural"):
-        """A decided non-SMT obligation (dataflow / frame / structural / native evaluation)."""
-        return self._record(oid, "discharged" if ok else "failed", function=function, what=what,
-                            backend=kind, detail=detail, replay=replay, seconds=0.0, model={} if not ok else None)
+    def fact(self, oid, ok, function=None, what=None, detail=None, replay=None, kind="structural", shape=None):
+        """A decided non-SMT obligation (dataflow / frame / structural / native evaluation).
+        `shape` facts state the PROGRAM SHAPE a contract relies on (one scan, one call of a callee, one host callback ...): when one fails, the contract can no longer be stated in
+        its present form - that is `undecided`, not a violation, unless the native replay route shows a behavioural difference.  By default ids that speak about counts of program
+        constructs are shape facts."""
+        if shape is None:
+            shape = bool(_SHAPE_ID.search(oid.rsplit("/", 1)[-1]))
+        rec = self._record(oid, "discharged" if ok else "failed", function=function, what=what,
+                           backend=kind, detail=detail, replay=replay, seconds=0.0, model={} if not ok else None)
+        if shape and not ok:
+            rec["abstraction_incomplete"] = True
+            rec["shape_fact"] = True
+        return rec
 
     def undecided(self, oid, reason, function=None, what=None):
         return self._record(oid, "undecided", function=function, what=what, reason=reason, seconds=0.0)
